@@ -8,8 +8,9 @@
        unstructuring of its value at the annotated type, in attribute order (unstr_class_spec).
    The full statement [C02_statement] over the relation Build is kept below; until its generic proof is finished the
    constructor stream decides it on the real classes (every structure and message, every alternative, shapes). *)
-From LSP Require Import Base MM Sem SemThy Image ImageThy Names Denote.
+From LSP Require Import Base MM Sem SemThy Image ImageThy Names Denote RoundTrip HookFrag Built.
 From Gen Require Import MMData PkgData.
+From Props Require Import Cover.
 
 Theorem C02_image : W_img mm Sg alias_objects plain_classes = true.
 Proof. vm_compute. reflexivity. Qed.
@@ -47,6 +48,24 @@ Proof. exact (unstr_typed Sg). Qed.
 Theorem C02_fuel_monotone : forall n m ot v j, n <= m -> unstr Sg n ot v = Ok j -> unstr Sg m ot v = Ok j.
 Proof. exact (unstr_mono_le Sg). Qed.
 
+(* (5) ROUND 2 — the statement itself, at the model level, for the covered part of the package (props/Cover.v): a value as the
+   generated constructors produce it (LSP.Built.built: well-typed at every depth, enum members genuine, attrs validators passed, a
+   None is written only where null is permitted) of a covered annotation serialises to its denotation, and that JSON structures
+   again into a value of the same type which serialises to the same JSON up to null-valued members.  No parsing on the way in. *)
+Theorem C02_class_tables_ok : all_cls_ok Sg = true.
+Proof. vm_compute. reflexivity. Qed.
+Theorem C02_built_serialises_and_reparses (pystr : json -> string) : forall P o,
+  okty Sg (fst cov) (snd cov) P = true -> built Sg NLm P o ->
+  exists n o' j', unstr Sg n (Some P) o = Ok (den Sg o) /\
+                  structure Sg pystr n P (den Sg o) = Ok o' /\ has_type Sg P o' /\ unstr Sg n (Some P) o' = Ok j' /\ RoundTrip.NEq (den Sg o) j'.
+Proof. exact (built_serialises_and_reparses Sg pystr NLm (fst cov) (snd cov) C02_class_tables_ok cover_table_ok cover_hooks_ok). Qed.
+(* non-vacuity: a concrete constructor-built value *)
+Example C02_built_example : built Sg NLm (PyCls "Position") (VObj "Position" [("line", VInt 1); ("character", VInt 2)]).
+Proof.
+  eapply b_cls; [vm_compute; reflexivity|]. intros f If. vm_compute in If.
+  destruct If as [<-|[<-|[]]]; eexists; (split; [vm_compute; reflexivity | split; [constructor | split; [vm_compute; reflexivity | intros E; discriminate E]]]).
+Qed.
+
 Example C02_example : camel "text_document" = "textDocument" /\ length (classes Sg) >= 100.
 Proof. split; [reflexivity | vm_compute; repeat constructor]. Qed.
 
@@ -54,3 +73,4 @@ Print Assumptions C02_kwargs_camel_to_wire.
 Print Assumptions C02_wire_is_metamodel_name.
 Print Assumptions C02_unstr_class_spec.
 Print Assumptions C02_well_typed_objects_serialise_to_their_denotation.
+Print Assumptions C02_built_serialises_and_reparses.
